@@ -121,6 +121,7 @@ BASE = """
 POST_CUTOFF = ("BALLQUAT", "FRAMEXAXIS", "FRAMEYAXIS", "FRAMEZAXIS", "FRAMEQUAT")
 FRAME_OBJ = [("body", "b2"), ("xbody", "b2"), ("geom", "g2"), ("site", "s2"), ("camera", "cam2"), ("body", "bf"), ("site", "sf")]
 FRAME_REF = [None, ("body", "b0"), ("xbody", "b1"), ("geom", "g0b"), ("site", "s0"), ("camera", "cam0"), ("camera", "camw"), ("body", "bf1")]
+CANCELLING = ("FORCE", "TORQUE", "ACCELEROMETER", "FRAMELINACC", "FRAMEANGACC")
 CONTACT_DEPENDENT = ("TOUCH", "CONTACT", "FORCE", "TORQUE", "ACCELEROMETER", "FRAMELINACC", "FRAMEANGACC", "JOINTLIMITFRC", "TENDONLIMITFRC")
 
 
@@ -683,10 +684,18 @@ def compare_sensors(m, meta, ref, refs_pert, got, contact_ok=True, rtol=1e-3):
   activating) and is discarded.  float32 vs float64: |err| <= 1e-3 (1 + |ref|)."""
   bad, ndisc, ncmp = [], 0, 0
   per = compare_sensors.per_type
+  # force / torque / acceleration sensors are sums of constraint and inertial force terms that can cancel
+  # (a force sensor on a free body is exactly 0 in MuJoCo and 1e-2 in float32 when the contact forces are
+  # ~400): their round-off is relative to the size of the terms, taken as the largest reference value
+  # among the sensors of the same type in this state
+  tmax = {}
+  for i, (tp, _, _, _) in enumerate(meta):
+    a, n = m.sensor_adr[i], m.sensor_dim[i]
+    tmax[tp] = max(tmax.get(tp, 0.0), float(np.abs(ref[a : a + n]).max()))
   for i, (tp, x, c, _) in enumerate(meta):
     a, n = m.sensor_adr[i], m.sensor_dim[i]
     r, g = ref[a : a + n], got[a : a + n]
-    scale = 1.0 + float(np.abs(r).max())
+    scale = 1.0 + (tmax[tp] if tp in CANCELLING else float(np.abs(r).max()))
     if (not contact_ok and tp in CONTACT_DEPENDENT) or float(np.abs(refs_pert[:, a : a + n] - r).max()) > 2e-4 * scale:
       ndisc += 1
       continue
@@ -900,14 +909,14 @@ def run(res):
   corr_bad += check_constants(res)
   trT = trs.get("T_sensor")
   if trT is not None:
-    tb = tvalidate(res, trT, 60 if quick else 600)
+    tb = tvalidate(res, trT, 60 if quick else 1200)
     res.obligation("T-validation: translated sensor/math value functions agree with compiled Warp", not tb, f"{len(tb)} disagreements")
     corr_bad += tb
   t0 = _t(res, "tvalid", t0)
-  corr_bad += cutoff_correspondence(res, 150 if quick else 1500)
+  corr_bad += cutoff_correspondence(res, 150 if quick else 3000)
   t0 = _t(res, "cutoff", t0)
   # oracle (the property itself) -- also yields the compiled models used by the layout / energy checks
-  fails, models_, meta, xml = oracle(res, 2 if quick else 12, (True, False))
+  fails, models_, meta, xml = oracle(res, 6 if quick else 80, (True, False))
   t0 = _t(res, "oracle", t0)
   corr_bad += check_layout(res, models_)
   t0 = _t(res, "layout", t0)
